@@ -3078,6 +3078,17 @@ class Set(Collection):
                 if not is_reverse_call:
                     for undo_func in reversed(undo_funcs): undo_func()
                 raise
+        if is_reverse_call:  # the caller (obj.delete() or obj.set()) can fail later and should be able to undo the changes below
+            modified_collections = cache.modified_collections[attr]
+            prev_items, prev_count, was_modified_earlier = set(setdata), setdata.count, obj in modified_collections
+            prev_added = None if setdata.added is None else set(setdata.added)
+            prev_removed = None if setdata.removed is None else set(setdata.removed)
+            def undo_func():
+                setdata.clear()
+                setdata.update(prev_items)
+                setdata.count, setdata.added, setdata.removed = prev_count, prev_added, prev_removed
+                if not was_modified_earlier: modified_collections.discard(obj)
+            undo_funcs.append(undo_func)
         setdata.clear()
         setdata |= new_items
         if setdata.count is not None: setdata.count = len(new_items)
